@@ -131,6 +131,18 @@ def _openings() -> Dict[str, dict]:
     # --- websocket
     o["ws"] = {"conn": {"carrier": "ws/h1"}, "stages": [ws_h1_handshake(b"/ws"), ws_frame(OP_TEXT, b"hi")],
                "expect": [("websocket", "1.1", "/ws", "hi")]}
+    # the same opening as browsers spell it: several Connection tokens, mixed case, token order reversed
+    ws_tokens = h1_request(b"GET", b"/ws", [(b"Connection", b"keep-alive, Upgrade"), (b"UPGRADE", b"WebSocket"),
+                                            (b"Sec-WebSocket-Key", b"dGhlIHNhbXBsZSBub25jZQ=="),
+                                            (b"Sec-WebSocket-Version", b"13")])
+    o["ws-tokens"] = {"conn": {"carrier": "ws/h1"}, "stages": [ws_tokens, ws_frame(OP_TEXT, b"hi")],
+                      "expect": [("websocket", "1.1", "/ws", "hi")]}
+    # an h2c upgrade with a body whose framing header comes *after* the Upgrade header (curl's order)
+    body_late = (b"POST /r1 HTTP/1.1\r\nHost: hypercorn\r\nConnection: Upgrade, HTTP2-Settings\r\nUpgrade: h2c\r\n"
+                 b"HTTP2-Settings: " + h2c_settings_header(None) + b"\r\nContent-Length: 5\r\n\r\nhello")
+    o["h2c-body-late"] = {"conn": {"carrier": "h1", "methods": [b"POST", b"GET"]},
+                          "stages": [body_late + h1_request(b"GET", b"/r2")],
+                          "expect": [("http", "1.1", "/r1", b"hello"), ("http", "1.1", "/r2", b"")]}
     o["ws-post"] = {
         "conn": {"carrier": "h1", "methods": [b"POST", b"GET"]},
         "stages": [h1_request(b"POST", b"/r1", [(b"Upgrade", b"websocket"), (b"Connection", b"Upgrade"),
